@@ -51,6 +51,13 @@ func c06(c *Check) {
 		c.Req(ok && n >= 1, "C06/positive-answers-only-under-chain-match", funcName(fn), fn.Pos(), fmt.Sprint(n, " positive return(s)"), "a return that can answer 'authorised/found' is not dominated by the chain == chainName comparison")
 	}
 
+	c.Rule("C06/registry-read-back-intact", "the relayer registry is decoded entry by entry into a fresh target (a reused protobuf target accumulates the chains of earlier relayers into later ones, so after an export/import a registration for one chain would confer another's)", 1)
+	freshDecodeRule(c, "C06/registry-read-back-intact")
+
+	c.Rule("C06/tss-signer-is-the-proof", "for a TSS-secured counterparty the only accepted proof is the message signer itself: the keeper substitutes msg.Signer for the proof on the TSS client-type branch (never a caller-supplied proof field), and the TSS client compares it with the configured TSS address (shared with C02)", 2)
+	tssProofRule(c, "C06/tss-signer-is-the-proof")
+	c.FrozenFiltered("C02", "C06/tss-signer-is-the-proof", func(fn string) bool { return strings.Contains(fn, "tss-client/types.") })
+
 	m := msM
 	c.Rule("C06/recv-packet-relayer", "msg server RecvPacket: callback, acknowledgements and success are dominated by the found edge of GetRelayerAddressOnOtherChain(packet.SrcChain, msg.Signer); the fee recipient in every acknowledgement is that call's result", 8)
 	ms := c.F(xibcK + "Keeper.RecvPacket")
